@@ -72,7 +72,16 @@ Ph2 == {PhZero, PhMixed}
 PhNonzero == {PhMixed, PhSolid}
 Ph3 == {PhZero, PhMixed, PhSolid}
 ReK == {Q(41), Q(43)}
+ReK1 == {Q(41)}
 NoReK == {}
+NmId == [s \in AllSpecies |-> s]
+NmIon == [s \in AllSpecies |-> CASE s = "A" -> "H+" [] s = "B" -> "OH-" [] s = "C" -> "H2O" [] s = "D" -> "AgCl(s)"]
+PfPlain == {"plain"}
+PfAll == {"plain", "ma", "str"}
+PfMa == {"plain", "ma"}
+CtList == {"list"}
+CtAll == {"list", "tuple", "ndarray"}
+Ov3 == <<Q(89), Q(97), Q(101)>>
 NoFeeds == {}
 
 OrdOne == { <<"C", "A", "D", "B">> }
